@@ -31,6 +31,19 @@ CHECKS = {
              "engine itself is not modelled. Known findings D14/D13 excused only on triggered lines of as-is behaviour.",
         technique="TLA+ model checking (TLC) with self-composition for diff locality + stepwise spec->code replay + batch trace validation",
         design="§6 C11"),
+    "C14": dict(
+        level="model_checking",
+        text="TLC explores the write protocol spec/AtomicWrite.tla (reformat_files/reformat_file/atomic_output_file; fault on every "
+             "file-system operation, crash before every operation; in-place with/without backup, stdout, -o; 1-2 files; every subset "
+             "of undecodable inputs) and checks TargetIntact, NoTouchWithoutInplace, FailureAtomic, PerFileAllOrNothing, Untouched in "
+             "every state. Every terminal scenario is replayed on the real CLI with strace syscall injection (errno or SIGKILL at the "
+             "k-th invocation located by a dry run), plus a kill at every file-system event of every fault-free run; the syscall log "
+             "of each run is validated by spec/FsTrace.tla with the invariants evaluated after every event, and the real final disk "
+             "state is classified and judged.",
+        note="Trusted: strace injection semantics, role recognition by file name, TLC. Torn writes inside one write(2) are modelled "
+             "(CrashMid) but not reproducible by injection. Durability (fsync) is outside the property.",
+        technique="TLA+ model checking (TLC) of AtomicWrite.tla + fault/crash scenario replay via strace injection + syscall-trace validation (FsTrace.tla)",
+        design="§6 C14"),
 }
 
 NOT_YET = "check not built yet in this phase (planned, see DESIGN.md §6)"
